@@ -9,6 +9,7 @@ import (
 	"io"
 	"mime/multipart"
 	"strings"
+	"sync"
 
 	"github.com/ipfs/go-unixfs"
 	"github.com/ipfs/ipfs-cluster/adder/ipfsadd"
@@ -123,14 +124,19 @@ func (a *Adder) FromFiles(ctx context.Context, f files.Directory) (cid.Cid, erro
 	defer a.cancel()
 	defer close(a.output)
 
+	// The importers may swallow errors when adding some of the blocks
+	// (go-unixfs does when growing a balanced DAG). Remember any failure
+	// so that we never finalize (pin) content with missing blocks.
+	dgs := &errLatchDAGService{ClusterDAGService: a.dgs}
+
 	var dagFmtr dagFormatter
 	var err error
 	switch a.params.Format {
 	case "", "unixfs":
-		dagFmtr, err = newIpfsAdder(ctx, a.dgs, a.params, a.output)
+		dagFmtr, err = newIpfsAdder(ctx, dgs, a.params, a.output)
 
 	case "car":
-		dagFmtr, err = newCarAdder(ctx, a.dgs, a.params, a.output)
+		dagFmtr, err = newCarAdder(ctx, dgs, a.params, a.output)
 	default:
 		err = errors.New("bad dag formatter option")
 	}
@@ -170,6 +176,11 @@ func (a *Adder) FromFiles(ctx context.Context, f files.Directory) (cid.Cid, erro
 		return cid.Undef, it.Err()
 	}
 
+	if err := dgs.Err(); err != nil {
+		logger.Error("error adding blocks to cluster: ", err)
+		return cid.Undef, err
+	}
+
 	clusterRoot, err := a.dgs.Finalize(a.ctx, adderRoot)
 	if err != nil {
 		logger.Error("error finalizing adder:", err)
@@ -180,6 +191,43 @@ func (a *Adder) FromFiles(ctx context.Context, f files.Directory) (cid.Cid, erro
 }
 
 // A wrapper around the ipfsadd.Adder to satisfy the dagFormatter interface.
+// errLatchDAGService wraps a ClusterDAGService and remembers the first
+// error returned when adding blocks.
+type errLatchDAGService struct {
+	ClusterDAGService
+
+	mu  sync.Mutex
+	err error
+}
+
+func (l *errLatchDAGService) latch(err error) error {
+	if err != nil {
+		l.mu.Lock()
+		if l.err == nil {
+			l.err = err
+		}
+		l.mu.Unlock()
+	}
+	return err
+}
+
+// Add adds a node and remembers the error if it fails.
+func (l *errLatchDAGService) Add(ctx context.Context, n ipld.Node) error {
+	return l.latch(l.ClusterDAGService.Add(ctx, n))
+}
+
+// AddMany adds several nodes and remembers the error if it fails.
+func (l *errLatchDAGService) AddMany(ctx context.Context, nds []ipld.Node) error {
+	return l.latch(l.ClusterDAGService.AddMany(ctx, nds))
+}
+
+// Err returns the first error seen while adding blocks, if any.
+func (l *errLatchDAGService) Err() error {
+	l.mu.Lock()
+	defer l.mu.Unlock()
+	return l.err
+}
+
 type ipfsAdder struct {
 	*ipfsadd.Adder
 }
